@@ -24,4 +24,16 @@ theorem paethPredictO_eq (a b c : UInt8) : paethPredictO a b c = some (Spec.Png.
   simp only []
   rw [i16abs_some _ (by omega), i16abs_some _ (by omega), i16abs_some _ (by omega)]
   simp only [Spec.Png.paeth, Int.ofNat_le]
+
+/-- PaethPredictor is symmetric in (left, above) -/
+theorem paeth_symm' (a b c : UInt8) : Spec.Png.paeth a b c = Spec.Png.paeth b a c := by
+  have ha := UInt8.toNat_lt a
+  have hb := UInt8.toNat_lt b
+  have hc := UInt8.toNat_lt c
+  simp only [Spec.Png.paeth]
+  by_cases hab : a = b
+  · subst hab; rfl
+  · have hne : a.toNat ≠ b.toNat := fun h => hab (UInt8.toNat_inj.mp h)
+    repeat' split
+    all_goals first | rfl | (exfalso; omega)
 end Lopdf
